@@ -472,10 +472,9 @@ func setMapField(field reflect.Value, fieldType reflect.Type, isPtr bool, mapArr
 	items := mapArr.Items()
 	length := int(end - start)
 
-	if isPtr {
-		fieldType = fieldType.Elem()
-	}
-
+	// fieldType is already dereferenced by the caller (setFieldFromArrow), as
+	// for setListField / setStructField: dereferencing again would turn the
+	// map type into its value type.
 	m := reflect.MakeMapWithSize(fieldType, length)
 	for j := 0; j < length; j++ {
 		k := reflect.New(fieldType.Key()).Elem()
